@@ -3,5 +3,6 @@ CONSTANTS
   Vary = {"mainpos", "mainfirst", "keep", "fn"}
   Fns = {"Println", "Sscan"}
   Shs = {"-"}
+  ScopeAware = FALSE
 INVARIANTS TypeOK Confluent ImportSound Export
 PROPERTIES Stable Terminates
